@@ -21,6 +21,7 @@ META = {
     "assumptions": ["public methods re-establish the class invariant (payload kind == discriminant) for other receivers"],
 }
 META["explanation"] += " " + '(SB-overload) the const& and && overloads of one Value operation that do not forward to each other apply the same kind tests to this value, the source and its elements. (RV-use) an rvalue-reference parameter is only moved from, inspected through members or emptied explicitly, never named as a plain value (which copies it).'
+META["explanation"] += " " + '(PR-recurse) every path through a container arm of Value::Compress reaches the loop that compresses the children, or empties the container.'
 
 SUPPRESS = [
     ("Qentem::Value::Storage()", "this.array_",
@@ -196,4 +197,98 @@ def run(ctx):
         t1.suppressions.append({"rule": "TS-value", "function": fn_sig, "construct": construct, "reason": reason, "matched": hit})
     t1.notes.append("%d member functions of Value analysed; kinds %s" % (n, sorted(spec.kinds)))
     from rules.common import rule_overload_pairs, rule_rvalue_use
-    return [t1, tx, rule_zero(ctx), rule_overload_pairs(ctx, m), rule_rvalue_use(ctx, m)]
+    return [t1, tx, rule_zero(ctx), rule_overload_pairs(ctx, m), rule_rvalue_use(ctx, m), rule_recurse(ctx, m)]
+
+
+
+def rule_recurse(ctx, m):
+    """PR-recurse: Compress() drops removed members at every depth: whatever it does to the container it is called on (rebuild,
+    nothing to drop, ...), it then visits the children.  On the CFG of Value::Compress every path from the entry of a container
+    arm to the end of the function passes the head of the loop that calls Compress() on the elements, unless the path emptied
+    the container (Reset / Clear: there are no children left).  An early return in front of that loop leaves nested containers
+    with their removed slots."""
+    from qlib import dataflow
+    r = Rule("PR-recurse", "every path through a container arm of Value::Compress reaches the loop that compresses the children (or empties the container)", floor=2)
+    fs = [f for f in m.functions if not f.inst and f.cfg and f.q == "Qentem::Value::Compress"]
+    if not fs:
+        r.broke("Value::Compress not found")
+        return r
+    f = fs[0]
+    ctx.note_fn(f)
+    blocks = f.blocks()
+    # loops with a recursive call in the body
+    rec_loops = []
+    for w in astq.nodes_of(f, ("WhileStmt", "DoStmt", "ForStmt")):
+        if any(f.call_simple_name(c) == "Compress" and f.call_receiver(c) is not None and f.nodes[f.strip(f.call_receiver(c))]["k"] != "CXXThisExpr" and
+               not f.text(f.call_receiver(c)).endswith("_") for c in astq.calls(f, None, f.nodes[w].get("body", w))):
+            rec_loops.append(w)
+    if len(rec_loops) < 2:
+        r.broke("Compress: expected a child-compressing loop for arrays and one for objects, found %d" % len(rec_loops))
+        return r
+    heads = {}
+    for b in f.cfg["blocks"]:
+        if b.get("looptarget") in rec_loops:
+            heads[b["id"]] = b["looptarget"]
+    # condition blocks of those loops count as reaching the loop too
+    for w in rec_loops:
+        cond = f.nodes[w].get("cond", -1)
+        for b in f.cfg["blocks"]:
+            if "cond" in b and cond is not None and cond >= 0 and f.strip(b["cond"]) in (set(f.walk(cond)) | {f.strip(cond)}):
+                heads[b["id"]] = w
+    # arms: the then-branches of the kind tests at the top level (isArray() / isObject())
+    arms = []
+    for i in astq.nodes_of(f, "IfStmt"):
+        ct = f.text(f.nodes[i]["cond"]).replace("this.", "")
+        if ct.strip("()") in ("isArray", "isObject") or ct in ("isArray()", "isObject()"):
+            arms.append((i, ct))
+    if len(arms) < 2:
+        r.broke("Compress: the isArray()/isObject() arms were not found")
+        return r
+    exit_id = f.cfg.get("exit")
+    for (i, ct) in arms:
+        # entry: true edge of the kind test
+        entries = []
+        for b in f.cfg["blocks"]:
+            if "cond" in b and f.strip(b["cond"]) == f.strip(f.nodes[i]["cond"]):
+                entries += [s_ for (s_, k_, p_) in dataflow.successors(f, b) if k_ == "true"]
+        region = set(f.walk(f.nodes[i]["then"]))
+        bad = None
+        seen = set()
+        work = [(e_, False) for e_ in entries]
+        while work and bad is None:
+            bid, done = work.pop()
+            if (bid, done) in seen:
+                continue
+            seen.add((bid, done))
+            if bid in heads:
+                done = True
+            b = blocks[bid]
+            last = None
+            returns_here = False
+            for e in b["el"]:
+                x = e.get("n")
+                if not isinstance(x, int) or e.get("k"):
+                    continue
+                if x in region:
+                    last = x
+                n = f.nodes[x]
+                if n["k"] in ("CallExpr", "CXXMemberCallExpr") and f.call_simple_name(x) in ("Reset", "Clear") and x in region:
+                    done = True
+                if n["k"] == "ReturnStmt":
+                    returns_here = True
+            succ = dataflow.successors(f, b)
+            real = [x for x in (e.get("n") for e in b["el"]) if isinstance(x, int)]
+            leaving = returns_here or not succ or (real and not any(x in region for x in real) and bid not in entries)
+            if leaving:
+                if not done and (returns_here or not succ or True):
+                    bad = last if last is not None else f.nodes[i]["cond"]
+                continue
+            for (s_, k_, p_) in succ:
+                if s_ == exit_id:
+                    if not done:
+                        bad = last if last is not None else f.nodes[i]["cond"]
+                    continue
+                work.append((s_, done))
+        r.ob(f.q, "arm %s" % ct, bad is None, "every path reaches the loop over the children or empties the container" if bad is None else
+             "a path leaves the arm at %s without visiting the children: nested containers keep their removed members" % (f.loc(bad)[0] if isinstance(f.loc(bad), tuple) else f.loc(bad)), f.loc(i))
+    return r
